@@ -20,7 +20,8 @@
 //!        h<hex> = the "[file:line] expr = " header of dbg! (filled in by the gen pass).  The `write` system call on
 //!        fd 1/2 is scripted through the sc-shim: kernel tokens a<k> (returns k) | o (returns 0 for an empty buffer) |
 //!        i (EINTR) | e<errno>; abstract k<n> = accept min(n, offered).  Past the script the kernel takes everything.
-//!        Answer: `<done|panic> sink=<bytes the kernel took, in order> used=<tokens consumed> fd=<1|2|-|mixed>`.
+//!        Answer: `<done|panic> sink=<bytes the kernel took, in order> used=<tokens consumed> fd=<1|2|-|mixed>`, or
+//!        `runaway calls=<n> ..` when the macro was still calling write after 20000 calls (unwound by the scripted kernel).
 //! Answer: `<ok [n]|err os <e>|err user|err uncat|panic> buf=|sink=<hex> used=<tokens consumed>`; with `--detail`
 //! additionally ` # log=<offered>/<carried>,.. caps=<capacities after each growth> cap=<final> uninit=<0|1>`.
 //!
@@ -600,7 +601,9 @@ fn run_wfmt(gen: bool, detail: bool, a: &[&str]) -> Option<String> {
 
 // ---------------------------------------------------------------------------------------------
 // The print macros (tiny-std/src/unix/print.rs) against a scripted `write` system call.
+const MAX_WRITE_CALLS: usize = 20_000;
 struct Kern {
+    runaway: bool,
     toks: Vec<WTok>,
     pos: usize,
     sink: Vec<u8>,
@@ -622,7 +625,7 @@ impl Kern {
                 _ => return None,
             });
         }
-        Some(Kern { toks: out, pos: 0, sink: Vec::new(), calls: Vec::new(), fds: Vec::new(), given: Vec::new() })
+        Some(Kern { runaway: false, toks: out, pos: 0, sink: Vec::new(), calls: Vec::new(), fds: Vec::new(), given: Vec::new() })
     }
     fn tok(k: usize, offered: usize) -> String {
         if k == 0 && offered == 0 {
@@ -633,6 +636,11 @@ impl Kern {
     }
     fn write(&mut self, fd: usize, buf: &[u8]) -> usize {
         let offered = buf.len();
+        if self.calls.len() >= MAX_WRITE_CALLS {
+            // a loop that never ends (no explored case needs more than a few hundred calls): unwind out of it
+            self.runaway = true;
+            panic!("runaway write loop");
+        }
         self.calls.push(offered);
         if !self.fds.contains(&fd) {
             self.fds.push(fd);
@@ -843,6 +851,9 @@ fn run_prt(gen: bool, detail: bool, a: &[&str]) -> Option<String> {
         [x] => x.to_string(),
         _ => "mixed".to_string(),
     };
+    if k.runaway {
+        return Some(format!("runaway calls={} used={} fd={}", k.calls.len(), k.pos, fd));
+    }
     let mut out = format!("{} sink={} used={} fd={}", if r.is_ok() { "done" } else { "panic" }, hex(&k.sink), k.pos, fd);
     if detail {
         out.push_str(&format!(" # log={}", commas(&k.calls)));
